@@ -82,7 +82,8 @@ class C13(Prop):
                   "transition table (29 184 transitions compared in Lean), the small-scope exhaustive table of cmd_in_buf/"
                   "first_cmd_in_buf/next_cmd_in_buf (2046 configurations) and the editing/terminator byte sets, and by "
                   "running the real functions and the model on the same streams under exhaustive 2-splits and random "
-                  "k-splits; the Lean oracle judges every real trace (incl. a stall clause for held reads); its "
+                  "k-splits; the Lean oracle judges every real trace (incl. a stall clause for held reads and a clause for "
+                  "lines typed ahead of a get_char() prompt: judgeMode); its "
                   "crash/index/ask/line-length clauses are a theorem on model traces (run_events_safe); telnet framing "
                   "(telnet_lines_delivered) needs only the side condition `no unfinished line longer than the discard "
                   "threshold`; PORT_BINARY framing (binary_bytes_delivered) is unconditional")
@@ -100,13 +101,15 @@ class C13(Prop):
             "empty socket; ports = telnet, ascii, binary, console; interleavings = extraction at the end / after each "
             "read / at random; callbacks = ok / LPC error / destruct at random ordinals; single-char mode switched on at "
             "a random read; get_char()/input_to() (with and without NOECHO) and serve steps at random points, 300..700 raw "
-            "CR LF pairs typed ahead of a get_char (reframe room test at 680..684 pairs).  "
+            "CR LF pairs typed ahead of a get_char (reframe room test at 680..684 pairs); key + NUL + 1..40 complete lines "
+            "typed ahead in ONE read of a pending get_char().  "
             "cases = corpus + known-finding inputs + boundary list + seeded streams (text, CR/LF/NUL mixes, IAC "
             "negotiations, complete/incomplete/oversized sub-negotiations, 8-bit data, lines > 2 KiB) x segmentations "
             "(all 2-splits of short streams, random k-splits, 1-byte reads) x extraction interleavings on telnet, ascii, "
             "binary ports and the console; non-trivial = trace has >= 2 lines; distinct = distinct canonical trace")
-    not_covered = ["single-character mode: delivery granularity is outside the statement (memory safety, mode switches and "
-                   "reframing are covered)",
+    not_covered = ["single-character mode: delivery granularity is outside the statement (memory safety, mode switches, "
+                   "reframing and - by the oracle clause judgeMode - the lines typed ahead of a get_char are covered; the "
+                   "clause is not proved for model traces)",
                    "the `!` shell escape of process_user_command (WAS_SINGLE_CHAR), ed, termios / console get_char",
                    "snooper callbacks made from INSIDE copy_chars through add_message() (echo, telnet replies): they always "
                    "succeed in the harness; a snooper error / destruct there is an unrepaired defect recorded in notes/C13.md",
@@ -638,6 +641,13 @@ def ccTable : List CcCfg := [
             raw("reframe-room-%d" % pairs, ["getchar", "send " + hx(b"x\0" + b"\r\n" * pairs + b"t"), "read", "read", "read", "read", "serve",
                                            "drain", ch(b"\r\nafter\r\n"), "drain"])
         raw("reframe-room-lone-crs", ["getchar", "send " + hx(b"x\0" + b"a\r" * 700 + b"\r\n"), "read", "read", "read", "read", "serve", "drain"])
+        # the get_char mode ends with MANY lines typed ahead in the same read as the key (reframe_single_char_input rewrites
+        # more text than the command just served has freed in front of it)
+        for nl in (1, 3, 4, 8, 40):
+            body = b"".join(b"L%d\r\n" % i for i in range(1, nl + 1))
+            raw("getchar-many-lines-%d" % nl, ["getchar", ch(b"y\0" + body), "serve", "drain", ch(b"after\r\n"), "drain"])
+        raw("getchar-many-lines-nuls-lone-cr", ["getchar", ch(b"k\0\0a\r\n\r\nb\r\r\nc\0d\r\ne\r"), "serve", "drain", ch(b"\nf\r\n"), "drain"])
+        raw("getchar-many-lines-key-only", ["getchar", ch(b"y"), "serve", ch(b"L1\r\nL2\r\nL3\r\nL4\r\nL5\r\n"), "drain"])
         raw("inputto-then-extract", ["inputto noecho", ch(b"secret\r\nnext\r\n"), "extract", "serve", "inputto", "drain"])
         add("single-char-full", "telnet", [b"s" * 682, b"s" * 682, b"s" * 682, b"s" * 682], single_at=0, inter="end")
         return B
@@ -725,6 +735,17 @@ def ccTable : List CcCfg := [
                 s = self.g_telnet_stream(rng, rng.range(3, 30), rng.choice(["text", "text", "telnet", "malformed"])) + b"\r\n"
                 if rng.chance(1, 4):
                     s = b"\r\n" * rng.range(300, 700) + s
+                if rng.chance(1, 2):
+                    # the key, NUL(s) and many complete lines typed ahead arrive in ONE read while the get_char() is pending
+                    body = b""
+                    for _ in range(rng.range(1, 30)):
+                        body += rng.choice([rng.choice(self.WORDS), self.g_text(rng, 0, 6), b""]) + rng.weighted([(b"\r\n", 10), (b"\r\r\n", 1), (b"\0", 1)])
+                    if rng.chance(1, 4):
+                        body += rng.choice([b"tail", b"t\r"])
+                    one = self.g_text(rng, 1, 3) + b"\0" * rng.range(1, 2) + body
+                    lines = ["port telnet", "getchar" + (" noecho" if rng.chance(1, 4) else ""), "chunk " + hx(one), "serve", "drain",
+                             "chunk " + hx(rng.choice([b"\n", b"\r\n", b"x\r\n"])), "drain"]
+                    C.append(E.Case("%s-oneread" % cid, lines, {"origin": "generated", "port": "telnet"}))
                 for how in ("few", "many"):
                     lines = ["port telnet"]
                     if rng.chance(1, 3):
